@@ -554,6 +554,34 @@ def run_shard(spec, shard):
 
     drive(rng(), max(2, spec["threads"] // 2), spec["seed"] + 5, cbody)
 
+    def dbody(r):
+        # deeply nested but valid queries compiled by all threads at once on the shared environment (whatever the
+        # parser counts or remembers while it descends must be per call)
+        items = []
+        for _ in range(6):
+            k = r.randrange(4)
+            d = r.choice([10, 25, 40, 60])
+            if k == 0:
+                q = "$[?" + "(" * d + "@.a" + ")" * d + "]"
+            elif k == 1:
+                q = "$[?" + "!(" * d + "@.a == 1" + ")" * d + "]"
+            elif k == 2:
+                n = r.choice([5, 12, 20])
+                q = "$" + "[?@" * n + ".a" + "]" * n
+            else:
+                n = r.choice([5, 12, 20])
+                q = "$[?" + "count(@[?" * n + "@.a" + "]) > 0" * n + "]"
+            items.append((q, "ok"))
+        items.append(("$[?(@.a]", "err"))
+        items.append(("$[?count(@.a) > ]", "err"))
+        case = {"kind": "threads", "jobs": [], "docs": [], "typed": items, "reps": 3}
+        shard.case(key=items, nontrivial=True, classes={"thread-round", "thread-round:deep-compile"}, sample={"deep-compile": [q[:40] for q, _ in items[:3]]})
+        f = examine(case)
+        if f:
+            shard.fail(f["bucket"], case, f)
+
+    drive(rng(), max(2, spec["threads"] // 3), spec["seed"] + 6, dbody)
+
 
 def minimise(case, failure, tier):
     return case, failure
